@@ -507,3 +507,15 @@ pub fn meta_variant(rng: &mut Rng, rs: &[Reg], a: u32, b: u32) -> Vec<Reg> {
         Reg::Barrier => Reg::Barrier,
     }).collect()
 }
+
+/// resources accessed by dynamic harness systems and thread-local systems (their setup creates what is missing)
+pub fn sys_resources(rs: &[Reg], out: &mut Vec<u32>) {
+    for r in rs {
+        match r {
+            Reg::Sys { reads, writes, kind: SysKind::Dynamic, .. } => { out.extend(reads); out.extend(writes); }
+            Reg::Tl { reads, writes, .. } => { out.extend(reads); out.extend(writes); }
+            Reg::Batch { inner, .. } => sys_resources(inner, out),
+            _ => {}
+        }
+    }
+}
